@@ -19,7 +19,7 @@ import (
 
 // Infraction is the C20 scenario (provider only).
 type Infraction struct {
-	Variant string // "base" | "bulk"
+	Variant string // "base" | "bulk" | "staggered" (base + two pending changes with different due times)
 }
 
 func (c Infraction) Name() string           { return "infraction" }
@@ -187,6 +187,17 @@ func (c Infraction) NewWorker(stats *engine.Stats) (engine.Worker, error) {
 		return w, nil
 	}
 	w.build()
+	if c.Variant == "staggered" {
+		// two launched consumers already hold pending changes that are due at different times
+		for _, ev := range []string{"update(c0,P1)", "block(5s)", "update(c2,P2)"} {
+			n, vs := w.tab.Apply(w.root, ev)
+			w.rootVs = append(w.rootVs, vs...)
+			if n == nil {
+				return nil, fmt.Errorf("staggered prefix: %s failed: %v", ev, vs)
+			}
+			w.root = n.(*infNode)
+		}
+	}
 	return w, nil
 }
 
